@@ -159,12 +159,12 @@ Definition msys_obs (s : msys) :=
 Fixpoint gen_go (seed i : Z) (n : nat) : list Z :=
   match n with
   | O => []
-  | S k => ((seed * 7 + i * 13 + i / 251) mod 256) :: gen_go seed (i + 1) k
+  | S k => Z.land (seed * 7 + i * 13 + Z.shiftr i 8) 255 :: gen_go seed (i + 1) k
   end.
 Definition gen_bytes (seed n : Z) : list Z := gen_go seed 0 (Z.to_nat n).
 
 Definition digest (l : list Z) : Z * Z :=
-  (Z.of_nat (length l), fold_left (fun acc x => (acc * 31 + x + 1) mod 1000003) l 0).
+  (Z.of_nat (length l), fold_left (fun acc x => Z.land (acc * 31 + x + 1) 1048575) l 0).
 
 Definition frame_dig (x : Z * frame) : Z * bool * (Z * Z) * Z :=
   (fst x, f_pf (snd x), digest (f_info (snd x)), hd 0 (f_info (snd x))).
